@@ -94,7 +94,11 @@ pub fn print_main() {
         let mut buf: Vec<u8> = Vec::new();
         let fmt = fmt_of(c["fmt"].as_str().unwrap());
         let r = std::panic::catch_unwind(std::panic::AssertUnwindSafe(|| {
-            fmt.print_batches(&mut buf, schema.unwrap(), &batches, MaxRows::Unlimited,
+            let maxrows = match c["maxrows"].as_i64() {
+                Some(n) if n >= 0 => MaxRows::Limited(n as usize),
+                _ => MaxRows::Unlimited,
+            };
+            fmt.print_batches(&mut buf, schema.unwrap(), &batches, maxrows,
                 c["header"].as_bool().unwrap(), &FormatOptions::default())
         }));
         match r {
@@ -121,15 +125,47 @@ pub fn print_main() {
 
 /// The client's interactive loop on piped stdin (as `datafusion-cli --quiet --format F` does):
 /// exec_from_repl -> split_from_semicolon -> exec_and_print -> PrintOptions::print_batches -> stdout.
-pub fn repl_main() {
+fn cli_options() -> (PrintFormat, MaxRows, bool) {
     let fmt = fmt_of(&arg("--format").unwrap_or("ndjson".into()));
+    let maxrows = match arg("--maxrows").as_deref() {
+        None | Some("inf") => MaxRows::Unlimited,
+        Some(n) => MaxRows::Limited(n.parse().unwrap()),
+    };
+    (fmt, maxrows, arg("--quiet").as_deref() != Some("false"))
+}
+
+/// `datafusion-cli -f FILE`: exec_from_lines (comment lines, statements spanning lines)
+pub fn file_main() {
+    let (fmt, maxrows, quiet) = cli_options();
+    let path = arg("--file").expect("--file");
+    let rt = tokio::runtime::Builder::new_multi_thread().worker_threads(2).enable_all().build().unwrap();
+    rt.block_on(async {
+        let ctx = SessionContext::new();
+        let po = PrintOptions {
+            format: fmt,
+            quiet,
+            maxrows,
+            color: false,
+            instrumented_registry: Arc::new(datafusion_cli::object_storage::instrumented::InstrumentedObjectStoreRegistry::new()),
+        };
+        let f = std::fs::File::open(&path).unwrap();
+        let mut rd = std::io::BufReader::new(f);
+        if let Err(e) = datafusion_cli::exec::exec_from_lines(&ctx, &mut rd, &po).await {
+            eprintln!("file error: {e}");
+            std::process::exit(3);
+        }
+    });
+}
+
+pub fn repl_main() {
+    let (fmt, maxrows, quiet) = cli_options();
     let rt = tokio::runtime::Builder::new_multi_thread().worker_threads(2).enable_all().build().unwrap();
     rt.block_on(async {
         let ctx = SessionContext::new();
         let mut po = PrintOptions {
             format: fmt,
-            quiet: true,
-            maxrows: MaxRows::Unlimited,
+            quiet,
+            maxrows,
             color: false,
             instrumented_registry: Arc::new(
                 datafusion_cli::object_storage::instrumented::InstrumentedObjectStoreRegistry::new(),
